@@ -7,8 +7,8 @@ import vlib
 
 META = {
     "category": "model_checking",
-    "text": "Wire.tla is the referee: its CodecView reads a name, a question and a record at every offset of an enumerated message and the whole message in the new API's flattened view; its PlainView reads stretches of the message as byte strings of their own (a name, a skipped name, a question, a record, split off and exact) the way the routes without decompression do. TLC checks that the new codec's stricter pointer rule only ever rejects more, that the flattened view is consistent with the sectioned one, and that a plain name is exactly a name the message route reads without meeting a pointer. Every enumerated message (~57k quick) is read by base::Message/ParsedName/Question/ParsedRecord+AllRecordData, Name::parse/from_octets, ParsedName::skip and by new::base NameBuf/RevNameBuf/Question/Record<RecordData>/MessageParser through split_message_bytes and through ParseBytes/SplitBytes of &Name, NameBuf, RevNameBuf, &UnparsedName, Question and Record, and compared three-way (old vs spec, new vs spec, old vs new). The referee knows the RDATA of NS/CNAME/PTR/MX/SOA/RP (names decompressed), SRV/DNAME/NSEC/RRSIG (names the new codec never decompresses), TXT/HINFO (character strings), OPT, A, AAAA. Family P puts names of 253..257 octets (17 label partitions) and character strings of 255 octets in every such place - bare, question, owner, each RDATA slot, completed by a pointer into a long question name - on every route. Random build scripts run on both builders (old: TreeCompressor, new: NameCompressor through both the reversed-name and the forward-name path), every fourth crossing the 16384-octet pointer limit with filler records; each output is read by both codecs and, up to 220 octets, re-parsed by TLC against the pushed items; recorded reads of random limit-shape messages (random partitions and octets, every place x 253..257) by every route are validated by TLC against the referee.",
-    "note": "Trusted: TLC, the transcription in Wire.tla, the harness. Where the referee gives no verdict on RDATA (types it does not know, a pointer inside SRV/DNAME/NSEC/RRSIG names in a message, a non-canonical type bitmap, an empty TXT) the case input says so and the item is not compared with the spec; for types both codecs know, accept/reject is still compared between the codecs. The content of character strings is not compared (accept/reject and lengths of the RDATA only); UnparsedName is compared as 'a name skipped'; the derive macros of other record types and Box<Name>/parse_bytes_in are not exercised. Names are compared case-insensitively after building (a compressor may point to an equal name in another case). Outputs beyond 220 octets are judged by the two readers only. The established builder is not driven across 16384 (its compressors' limit is C02's finding D_ptr_limit_c000). Build scripts also fill small buffers until pushes fail and truncate()/rewind in the middle, comparing counts after every call. The builders are not asked to write SRV/DNAME/NSEC/RRSIG/RP/TXT/HINFO records (reading only). Open known findings: D_new_ptr_rule and four accept/reject disagreements on RDATA (empty TXT, compressed names in SRV/DNAME/RRSIG/NSEC, non-canonical type bitmaps, short ZONEMD digest).",
+    "text": "Wire.tla is the referee: its CodecView reads a name, a question and a record at every offset of an enumerated message and the whole message in the new API's flattened view; its PlainView reads stretches of the message as byte strings of their own (a name, a skipped name, a question, a record, split off and exact) the way the routes without decompression do. TLC checks that the new codec's stricter pointer rule only ever rejects more, that the flattened view is consistent with the sectioned one, and that a plain name is exactly a name the message route reads without meeting a pointer. Every enumerated message (~57k quick) is read by base::Message/ParsedName/Question/ParsedRecord+AllRecordData, Name::parse/from_octets, ParsedName::skip and by new::base NameBuf/RevNameBuf/Question/Record<RecordData>/MessageParser through split_message_bytes and through ParseBytes/SplitBytes of &Name, NameBuf, RevNameBuf, &UnparsedName, Question and Record, and compared three-way (old vs spec, new vs spec, old vs new). The referee knows the RDATA of NS/CNAME/PTR/MX/SOA/RP (names decompressed), SRV/DNAME/NSEC/RRSIG (names the new codec never decompresses), TXT/HINFO (character strings), OPT, A, AAAA. Family P puts names of 253..257 octets (17 label partitions) and character strings of 255 octets in every such place - bare, question, owner, each RDATA slot, completed by a pointer into a long question name - on every route. Random build scripts run on both builders (old: TreeCompressor, new: NameCompressor through both the reversed-name and the forward-name path), every fourth crossing the 16384-octet pointer limit with filler records; each output is read by both codecs and, up to 220 octets, re-parsed by TLC against the pushed items; recorded reads of random limit-shape messages (random partitions and octets, every place x 253..257) by every route are validated by TLC against the referee. Size limits: BuildLimit.tla states the limit semantics of both builders (octets of the whole message, header included, as in MsgBuilder.tla; hard limit = capacity / buffer narrowed by limit_to, soft limit = set_push_limit; item lengths between ideal and no compression); scripts are run under every abstract limit from 12 to beyond their full length through every limiting entry point (established: set_push_limit before / between pushes / replacing a laxer one / across builder(), target capacity; new: buffer size, limit_to before / between pushes / narrowing / after a stricter one / across truncate()), every push attempted, and TLC judges every call of every run, re-reads every distinct output and requires runs with the same needs and effective limits to admit the same prefix and emit the same octets.",
+    "note": "Trusted: TLC, the transcription in Wire.tla, the harness. Where the referee gives no verdict on RDATA (types it does not know, a pointer inside SRV/DNAME/NSEC/RRSIG names in a message, a non-canonical type bitmap, an empty TXT) the case input says so and the item is not compared with the spec; for types both codecs know, accept/reject is still compared between the codecs. The content of character strings is not compared (accept/reject and lengths of the RDATA only); UnparsedName is compared as 'a name skipped'; the derive macros of other record types and Box<Name>/parse_bytes_in are not exercised. Names are compared case-insensitively after building (a compressor may point to an equal name in another case). Outputs beyond 220 octets are judged by the two readers only. The established builder is not driven across 16384 (its compressors' limit is C02's finding D_ptr_limit_c000). Build scripts also fill small buffers until pushes fail and truncate()/rewind in the middle, comparing counts after every call. In the limit sweeps the length a refused push would have needed is measured on a fresh builder of the same side given the admitted items and then this one; it is binding only until the first refusal of a run (afterwards the new compressor may know fewer names, so only a refusal of an item that fits uncompressed is an error there); set_push_limit(p) refusing a message of exactly p octets is left open as in MsgBuilder.tla (its parameter for the abstract limit m is m + 1); limit scripts use lower-case names; StreamTarget's 65535-octet limit is not swept here (C02). The builders are not asked to write SRV/DNAME/NSEC/RRSIG/RP/TXT/HINFO records (reading only). Open known findings: D_new_ptr_rule and four accept/reject disagreements on RDATA (empty TXT, compressed names in SRV/DNAME/RRSIG/NSEC, non-canonical type bitmaps, short ZONEMD digest).",
     "technique": "TLA+ spec (Wire.tla) + TLC exhaustive over enumerated messages; spec->impl differential case replay on two codecs; impl->spec trace validation of build scripts",
     "design_ref": "DESIGN.md §4 C19",
 }
@@ -91,6 +91,52 @@ def _vacuity_limits(path):
         raise vlib.ToolError("vacuity: limit-shape cases never reach %s" % sorted(need - seen))
 
 
+_LIM_EPS = [("old", "push_limit", False), ("old", "push_limit", True), ("old", "capacity", False),
+            ("old", "push_limit_rewound", False), ("new", "buffer", False), ("new", "limit_to", False),
+            ("new", "limit_to", True), ("new", "limit_to_rewound", False)]
+
+
+def _limit_need():
+    need = {"limit_to:refused", "limit_to:after-stricter", "limit_to:after-laxer", "push_limit:after-laxer"}
+    for side, ep, mid in _LIM_EPS:
+        k = "%s:%s%s" % (side, ep, ":mid" if mid else "")
+        # a push that ends exactly at the limit is admitted; pushes that would
+        # end 1 .. 12 octets beyond it (the length of a header) are refused
+        need |= {k + ":at-limit", k + ":beyond+1", k + ":beyond+12", k + ":full"}
+    return need
+
+
+def _limit_vacuity(o, seen):
+    m = o["limit"]
+    for r in o["runs"]:
+        if r.get("panic"):
+            continue
+        k = "%s:%s%s" % (r["side"], r["ep"], ":mid" if r["at"] > 0 else "")
+        nlim = [st for st in r["steps"] if st["op"] == "limit"]
+        if len(nlim) == 2 and r["ep"] in ("limit_to", "push_limit"):
+            seen.add("%s:after-%s" % (r["ep"], "stricter" if nlim[0]["p"] < nlim[1]["p"] else "laxer"))
+            continue
+        if any(not st["ok"] for st in nlim):
+            seen.add("limit_to:refused")
+            continue
+        # judged by the measured needs alone (not by what the builder answered),
+        # up to the first push that does not fit
+        fits = True
+        for st in r["steps"]:
+            if st["op"] != "push":
+                continue
+            if fits and st["need"] == m:
+                seen.add(k + ":at-limit")
+            if fits and st["need"] == m + 1:
+                seen.add(k + ":beyond+1")
+            if fits and st["need"] == m + 12:
+                seen.add(k + ":beyond+12")
+            if st["need"] > m:
+                fits = False
+        if fits:
+            seen.add(k + ":full")
+
+
 def run(ctx):
     thorough = ctx.tier == "thorough"
     sfx = "_thorough" if thorough else ""
@@ -101,6 +147,13 @@ def run(ctx):
     ctx.require_ok(mc, "MC_Codec")
     ctx.exhaustive_flags.append(True)
     ctx.coverage_actions["MC_Wire:Phase1,Phase2,NWStep"] = (mc.distinct, mc.generated)
+
+    # 1b. the size-limit semantics of both builders (BuildLimit.tla): the calls
+    #     a builder can log, accepted by the operator that judges recorded runs
+    mcl = ctx.tlc("MC_BuildLimit", "MC_BuildLimit" + sfx, workers=4, label="mc-buildlimit")
+    ctx.require_ok(mcl, "MC_BuildLimit")
+    ctx.require_actions(mcl, ["Push", "Limit", "Trunc"])
+    ctx.exhaustive_flags.append(True)
 
     # 2. S->I: every enumerated message read by both codecs
     cases = os.path.join(ctx.work, "cases-codec.ndjson")
@@ -144,6 +197,7 @@ def run(ctx):
         if rc != 0:
             raise vlib.ToolError("record_codec failed: " + (out + err)[-500:])
         kinds = {}
+        lim_seen = set()
         sweep = set()
         edns_built = False
         places = set()
@@ -152,6 +206,8 @@ def run(ctx):
             if o["ev"] == "plain":
                 places.add((o["slot"], o["namelen"]))
             kinds[(o["ev"], o.get("side"))] = kinds.get((o["ev"], o.get("side")), 0) + 1
+            if o["ev"] == "limit":
+                _limit_vacuity(o, lim_seen)
             if o.get("script") == "sweep" and o.get("side") == "new":
                 sweep.add((o["forward"], o["suffix_at"]))
             if o["ev"] == "built" and o["items"] and o["items"][-1][0] == 4 and \
@@ -179,10 +235,16 @@ def run(ctx):
         ok, res, rej = ctx.validate_trace("Trace_Codec", "Trace_Codec", tr, label="build-%d" % i, env=env)
         ctx.traces += 1
         if not ok:
+            rev = (rej or {}).get("event", {}).get("ev")
             what = ("a reading route of one codec differs from the referee's view of a limit-shape message"
-                    if (rej or {}).get("event", {}).get("ev") == "plain"
+                    if rev == "plain"
+                    else "a size-limiting entry point of one builder admits or refuses a push against the limit semantics of BuildLimit.tla, or the two builders differ under the same limit"
+                    if rev == "limit"
                     else "a built message is not read back as pushed by referee / old / new codec")
             ctx.violation(what, rej)
+        miss = _limit_need() - lim_seen
+        if miss:
+            raise vlib.ToolError("vacuity: limit sweeps never reach %s" % sorted(miss))
         for w in res.tagged.get("WITNESSED", []):
             for d in w.get("devs", []):
                 ctx.known(d, {"trace": os.path.basename(tr)})
@@ -198,6 +260,29 @@ def run(ctx):
             open(bad, "w").write("\n".join(lines) + "\n")
             ok2, _, _ = ctx.validate_trace("Trace_Codec", "Trace_Codec", bad, label="build-selftest", env=env)
             ctx.selftest("corrupted build trace is rejected by Trace_Codec", not ok2)
+            # ... a limit that is taken 12 octets larger than given (a push
+            #     admitted beyond it) on a limit_to run
+            bad = os.path.join(ctx.work, "limit-bad.ndjson")
+            lims = []
+            done = False
+            for l in lines:
+                o = json.loads(l)
+                if o["ev"] != "limit":
+                    continue
+                lims.append(o)
+                for r in o["runs"]:
+                    if r["side"] == "new" and r["ep"] == "limit_to" and r["at"] == 0 and r["steps"] and \
+                       r["steps"][0]["op"] == "limit" and r["steps"][0]["p"] == r["p"] and \
+                       any(st["op"] == "push" and st["ok"] and r["p"] - 12 < st["len"] for st in r["steps"]):
+                        r["steps"][0]["p"] -= 12
+                        done = True
+                        break
+                if done:
+                    break
+            open(bad, "w").write("\n".join(json.dumps(o) for o in lims) + "\n")
+            ok4, _, rej4 = ctx.validate_trace("Trace_Codec", "Trace_Codec", bad, label="limit-selftest", env=env)
+            ctx.selftest("a limit_to run that admits a push within 12 octets beyond its limit is rejected by Trace_Codec",
+                         done and (not ok4) and rej4 is not None and rej4.get("matched") == len(lims) - 1)
             # ... and a reading-route verdict that differs from the referee's
             bad = os.path.join(ctx.work, "plain-bad.ndjson")
             plain = []
